@@ -260,8 +260,8 @@ PROPS['C10'] = {
 PROPS['C09'] = {
     'level': 'proof',
     'technique': 'Lean 4 theorems on models of the XML read budget (BufReadCounter as a state machine: limit + one buffer, tight), sort_and_verify_deltas (never panics; true iff the retained serials are consecutive), has_matching_origins, attribute/text escaping and Base64 (round trips for all octet strings, white space ignored) and of the three RRDP writers (byte-exact) + differential check: written files re-parsed by the real parser and by a Lean reference reader, endless hostile streams through a counting reader',
-    'claim': 'Lean 4 proofs: after reset_and_limit(L), L>0, at most L + B octets are pulled before a read is refused for every fill/consume sequence respecting the BufRead contract (B = largest buffer offered), and the bound is attained; sort_and_verify_deltas never panics and answers true iff the newest `limit` sorted serials are consecutive; the origin check is true iff snapshot and all deltas share the authority (ASCII case-insensitively); escapeAttr/escapePcdata un-escape to the original for ALL octet strings, contain no raw quote/< and only well-formed entities; Base64 text decodes to exactly the object with white space anywhere, and only canonical text decodes. Writer models for notification/snapshot/delta files are byte-exact on every generated value. Partial: quick-xml (tokeniser, namespace resolution, its internal buffering, entity handling) is not modelled: file-level round trip through the real parser and the measured number of octets pulled from endless streams are established by the correspondence run, the latter against the proved bound p + L + B.',
-    'note': 'MAX_HEADER_SIZE / MAX_FILE_SIZE, the fill_buf/consume/reset shapes, the escape tables and the checked addition in the delta loop are re-read from the source on every run. A document-level theorem (reference reader inverts the generic element writer) is under way in Rpki/Proofs/XmlDocLemmas.lean and is not part of the claim until it is built.',
+    'claim': 'Lean 4 proofs: after reset_and_limit(L), L>0, at most L + B octets are pulled before a read is refused for every fill/consume sequence respecting the BufRead contract (B = largest buffer offered), and the bound is attained; sort_and_verify_deltas never panics and answers true iff the newest `limit` sorted serials are consecutive; the origin check is true iff snapshot and all deltas share the authority (ASCII case-insensitively); escapeAttr/escapePcdata un-escape to the original for ALL octet strings, contain no raw quote/< and only well-formed entities; Base64 text decodes to exactly the object with white space anywhere, and only canonical text decodes. Writer models for notification/snapshot/delta files are byte-exact on every generated value, and on the models the written files are read back by the reference reader as exactly the tree of their fields, for all field values and element lists (objects of any length), with injective writers. Partial: quick-xml (tokeniser, namespace resolution, its internal buffering, entity handling) is not modelled: file-level round trip through the real parser and the measured number of octets pulled from endless streams are established by the correspondence run, the latter against the proved bound p + L + B.',
+    'note': 'MAX_HEADER_SIZE / MAX_FILE_SIZE, the fill_buf/consume/reset shapes, the escape tables and the checked addition in the delta loop are re-read from the source on every run. The document-level theorems are in Rpki/Proofs/XmlDocLemmas.lean and RrdpDoc.lean.',
     'shards': {'quick': 4, 'thorough': 16},
     'budget': {'quick': 900, 'thorough': 7200},
     'rule': 'escaping: every single octet and all pairs over {< > & quote apos ; # a x} in both modes + random strings; Base64: every length 0-39 encoded/decoded/with white space, random text over the alphabet and neighbours; 500 (thorough 4000) notification files (0-200 deltas, serials at 0 and 2^64-1, URIs with & and apostrophes) and as many snapshot/delta files (0-50 elements, objects of 0-4096 octets incl. all byte values) written, re-parsed by the library (equality) and by the Lean reference reader (well-formed, canonical); delta chains: every sequence of length <= 4 (thorough 5) over {0,1,2,3,2^64-2,2^64-1} x limits {none,0..6} + random shuffled runs with gaps and duplicates; origins over 6 hosts x 7 paths; endless streams: 16 kinds (attribute value/name, element name, white space in tag, leading white space/comment/doctype, white space/comment/text/entities/nested elements after the root start, inner attribute value/name, trailing white space/comment, publish text) x notification/snapshot/delta through a counting reader with 8 KiB buffers.',
@@ -296,7 +296,7 @@ PROPS['C11'] = {
 PROPS['C05'] = {
     'level': 'proof',
     'technique': 'Lean 4 theorems for the hand-assembled layouts on the DER TLV model (TLV round trip; capture layout: content-of-SEQUENCE-OF iterates item by item whereas a capture with header reads as one value; manifest content codec decode(encode)=value with len and iterator, byte-identical re-encoding; times, serial numbers, signed-attribute set in any order + DER signature input) + differential check: every builder (certificates, CRLs, manifests, ROAs, ASPAs, generic signed objects, CSRs, identity certificates, signed messages, RTAs) -> to_captured -> library decoder -> validator -> re-encoder, and a canonical dump of every public accessor/iterator of the built value compared with its decoded twin, oracle evaluated by the Lean driver',
-    'claim': 'Lean 4 proofs (all inputs): readTlv(tlv t c ++ rest) = (t,c,rest); a captured concatenation of item encodings is read back as exactly the items (the layout decoders capture and, since fixes 54fd888/a2fd24b, builders too) while a capture including the SEQUENCE header reads back as one value (why iterating a freshly built ROA attestation failed); manifest content: decodeContent(encodeContent number this next entries) returns exactly those values, len = number of entries, the iterator yields them, re-encoding is byte-identical; time and serial round trips (C17); the three signed attributes are accepted in any order and the signature input is their DER SET OF (C02). Partial: X.509/CMS/CRL/CSR envelopes are not modelled; for them the statement is decided by the correspondence run (decode, validate, re-encode identity, accessor-by-accessor agreement, no panic at any stage).',
+    'claim': 'Lean 4 proofs (all inputs): readTlv(tlv t c ++ rest) = (t,c,rest); a captured concatenation of item encodings is read back as exactly the items (the layout decoders capture and, since fixes 54fd888/a2fd24b, builders too) while a capture including the SEQUENCE header reads back as one value (why iterating a freshly built ROA attestation failed); manifest content: decodeContent(encodeContent number this next entries) returns exactly those values, len = number of entries, the iterator yields them, re-encoding is byte-identical; CRL revocation list: the counting pass accepts what the builder encodes, the iterator yields exactly the entries, contains() answers membership and cannot fail, and for arbitrary accepted octets lookup and iteration agree (both codec models are tied to the encoders of the library byte for byte by the `enc` and `crlx` operations); time and serial round trips (C17); the three signed attributes are accepted in any order and the signature input is their DER SET OF (C02). Partial: X.509/CMS/CRL/CSR envelopes are not modelled; for them the statement is decided by the correspondence run (decode, validate, re-encode identity, accessor-by-accessor agreement, no panic at any stage).',
     'note': 'The builder/decoder capture shapes of ROA and ASPA and the manifest encode_ref field order are re-read from the source on every run. Inputs carry a conformity marker (conf=) computed by the generator from the object profiles; out-of-profile inputs are only required not to panic after decoding. One recorded finding: sub-second instants (see KNOWN_FINDINGS.txt).',
     'shards': {'quick': 8, 'thorough': 16},
     'budget': {'quick': 900, 'thorough': 10800},
